@@ -68,21 +68,34 @@ func genNet(r *simrt.Rand, faulty bool) NetConfig {
 	return n
 }
 
+// buffer sizes: tiny, aligned, and non-aligned ones (the pool rounds a size up, so
+// len(buffer) < cap(buffer) and a frame can fit the capacity but not the length)
+var bufSizes = []int{1, 64, 100, 1000, 3000, 4096, 5000, 70000, 1 << 20}
+
+func genBuf(r *simrt.Rand) int {
+	if r.Chance(1, 5) {
+		return 0 // default
+	}
+	return bufSizes[r.Intn(len(bufSizes))]
+}
+
+func alignedCap(n int) int {
+	if n >= 64*1024 {
+		return (n + 1023) / 1024 * 1024
+	}
+	c := 8
+	for c < n {
+		c <<= 1
+	}
+	return c
+}
+
 func genServer(r *simrt.Rand) ServerCfg {
 	s := ServerCfg{}
 	s.Poll = r.Chance(1, 3)
 	s.Pipelining = r.Chance(1, 3)
 	s.DirectIO = r.Chance(1, 4)
-	switch r.Intn(5) {
-	case 0:
-		s.BufferSize = 1
-	case 1:
-		s.BufferSize = 64
-	case 2:
-		s.BufferSize = 4096
-	case 3:
-		s.BufferSize = 1 << 20
-	}
+	s.BufferSize = genBuf(r)
 	s.Shared = r.Chance(1, 4)
 	return s
 }
@@ -91,16 +104,7 @@ func genConn(r *simrt.Rand, nservers int) ConnCfg {
 	c := ConnCfg{Server: r.Intn(nservers)}
 	c.Pipelining = r.Chance(1, 4)
 	c.DirectIO = r.Chance(1, 4)
-	switch r.Intn(5) {
-	case 0:
-		c.BufferSize = 1
-	case 1:
-		c.BufferSize = 64
-	case 2:
-		c.BufferSize = 4096
-	case 3:
-		c.BufferSize = 1 << 20
-	}
+	c.BufferSize = genBuf(r)
 	// Conn.SetBufferSize after Dial blocks on the reader's lock until the next
 	// message arrives (the reader holds it while blocked in Read); it is not used.
 	return c
@@ -108,7 +112,35 @@ func genConn(r *simrt.Rand, nservers int) ConnCfg {
 
 var sizeClasses = []int{0, 1, 2, 7, 100, 127, 128, 129, 1000, 4095, 4096, 4097, 16383, 16384, 16385}
 
+// nearRanges are payload ranges around the configured buffer sizes of the plan being generated
+// (frames that just fit / just exceed the length or the pool-aligned capacity of a buffer).
+var nearRanges [][2]int
+
+func setNearRanges(p *Plan) {
+	nearRanges = nil
+	add := func(b int) {
+		if b >= 100 && b <= 70000 {
+			nearRanges = append(nearRanges, [2]int{b - 90, alignedCap(b) + 24})
+		}
+	}
+	for _, s := range p.Servers {
+		add(s.BufferSize)
+	}
+	for _, c := range p.Conns {
+		add(c.BufferSize)
+	}
+}
+
 func genSize(r *simrt.Rand, big *int) int {
+	if len(nearRanges) > 0 && r.Chance(1, 4) {
+		nr := nearRanges[r.Intn(len(nearRanges))]
+		if nr[1] < 4200 || *big > 0 {
+			if nr[1] >= 4200 {
+				*big--
+			}
+			return r.Range(nr[0], nr[1])
+		}
+	}
 	if *big < 0 { // tiny buffers somewhere: every byte costs a scheduling step
 		return []int{0, 1, 2, 7, 100, 127, 128, 129, 300}[r.Intn(9)]
 	}
@@ -147,18 +179,19 @@ func genBase(r *simrt.Rand, name string, faulty bool) *Plan {
 	for i := 0; i < nc; i++ {
 		p.Conns = append(p.Conns, genConn(r, ns))
 	}
+	setNearRanges(p)
 	return p
 }
 
 // bigBudget returns how many large payloads a plan may contain (-1: only small ones).
 func bigBudget(p *Plan) int {
 	for _, s := range p.Servers {
-		if s.BufferSize > 0 && s.BufferSize < 4096 {
+		if s.BufferSize > 0 && s.BufferSize < 1000 {
 			return -1
 		}
 	}
 	for _, c := range p.Conns {
-		if c.BufferSize > 0 && c.BufferSize < 4096 {
+		if c.BufferSize > 0 && c.BufferSize < 1000 {
 			return -1
 		}
 	}
